@@ -116,7 +116,7 @@ func VerifHarness_C16_bind_once() {
 // Allocation life cycle in the manager: timer armed with the granted lifetime, expiry and
 // DeleteAllocation release everything exactly once, events pair up.
 //
-//verif:props=C06,C15,C04,C18 replay=model bounds="all lifetimes (int64 ns > 0); UDP allocation with 2 permissions, 1 binding built by real calls; deletion by expiry or by DeleteAllocation, twice"
+//verif:props=C06,C15,C04,C18 replay=model bounds="all lifetimes (int64 ns > 0); UDP allocation with 2+ permissions and up to 3 bindings built by real calls; deletion by expiry or by DeleteAllocation, twice"
 func VerifHarness_C06_create_expire() {
 	env := VNewManager(false, false)
 	m := env.M
@@ -146,6 +146,16 @@ func VerifHarness_C06_create_expire() {
 	vAssume(vInRange(n))
 	e3 := a.AddChannelBind(NewChannelBind(n, VUDPAddr4(), log), 600*time.Second, 300*time.Second)
 	vAssume(e3 == nil)
+	// two more channels on fixed, distinct numbers and peers (teardown must handle several)
+	others := 0
+	for k := 1; k <= 2; k++ {
+		nk := proto.ChannelNumber(0x4000 + k)
+		if nk != n {
+			if a.AddChannelBind(NewChannelBind(nk, &net.UDPAddr{IP: net.IP{10, 0, 0, byte(k)}, Port: 1000 + k}, log), 600*time.Second, 300*time.Second) == nil {
+				others++
+			}
+		}
+	}
 	nPerm, nChan := len(a.permissions), len(a.channelBindings)
 	vAssert(env.Ev.PermCreated == nPerm, "C15.permission_created_events_match_table")
 	vAssert(env.Ev.ChanCreated == nChan, "C15.channel_created_events_match_table")
@@ -171,6 +181,7 @@ func VerifHarness_C06_create_expire() {
 	vAssert(len(a.permissions) == 0, "C06.permissions_gone_with_allocation")
 	vAssert(len(a.channelBindings) == 0, "C06.channels_gone_with_allocation")
 	vAssert(vArmedTimers() == 0, "C15.all_timers_stopped")
+	vAssert(vArmedTimers() == 0, "C06.deleted_allocation_leaves_no_timer_armed")
 	vAssert(env.Ev.AllocDeleted == 1, "C15.one_deleted_event")
 	vAssert(env.Ev.PermDeleted == nPerm, "C15.permission_events_pair_up")
 	vAssert(env.Ev.ChanDeleted == nChan, "C15.channel_events_pair_up")
@@ -180,5 +191,50 @@ func VerifHarness_C06_create_expire() {
 	vAssert(env.Relays[0].Closed == 1, "C15.second_delete_releases_nothing_again")
 	vAssert(env.Ev.AllocDeleted == 1, "C15.second_delete_emits_no_event")
 	vAssert(env.Ev.PermDeleted == nPerm, "C15.second_delete_no_permission_event")
+	vReach("end")
+}
+
+// The duplicate-connection rule is per allocation: two clients may each connect to the same peer.
+//
+//verif:props=C04,C16 bounds="two TCP allocations on distinct 5-tuples; both Connect to the same arbitrary IPv4 peer"
+func VerifHarness_C04_connect_same_peer_from_two_allocations() {
+	env := VNewManager(false, false)
+	m := env.M
+	ftA, ftB := VFiveTuple(), VFiveTuple()
+	vAssume(ftA.Fingerprint() != ftB.Fingerprint())
+	a, err := m.CreateAllocation(ftA, &VPacketConn{Name: "turnA"}, proto.ProtoTCP, 0, 600*time.Second, "u1", "realm", proto.RequestedFamilyIPv4)
+	vAssume(err == nil)
+	b, err := m.CreateAllocation(ftB, &VPacketConn{Name: "turnB"}, proto.ProtoTCP, 0, 600*time.Second, "u2", "realm", proto.RequestedFamilyIPv4)
+	vAssume(err == nil)
+	peer := proto.PeerAddress{IP: VIP4(), Port: VPort()}
+	vAssume(peer.Port != 0)
+	idA, eA := m.CreateTCPConnection(a, peer)
+	idB, eB := m.CreateTCPConnection(b, peer)
+	vAssert(eA == nil, "C16.connect_succeeds")
+	vAssert(eB != ErrDupeTCPConnection, "C04.another_clients_connection_does_not_block_this_clients_connect") // (a random id collision is a different, legitimate error)
+	vAssertIf(vAnd(eA == nil, eB == nil), idA != idB, "C16.connection_ids_unique_across_allocations")
+	vAssert(vLocksHeld() == 0, "C18.connect_leaves_no_lock_held")
+	vReach("end")
+}
+
+// EVEN-PORT probing: every socket opened to find an even port is closed again, whatever ports come up.
+//
+//verif:props=C15 unwind=20 bounds="0..3 odd ports before an even one; the probe may also fail"
+func VerifHarness_C15_even_port_probe() {
+	env := VNewManager(true, false)
+	k := vPick(0, 3)
+	for i := 0; i < k; i++ {
+		env.PortScript = append(env.PortScript, 2*int(vU16()>>1)+1)
+	}
+	env.PortScript = append(env.PortScript, 2*int(vU16()>>1))
+	port, err := env.M.GetRandomEvenPort()
+	if err == nil {
+		vAssert(port%2 == 0, "C15.even_port_is_even")
+		vAssert(len(env.Relays) == k+1, "C15.probe_stops_at_the_first_even_port")
+	}
+	for _, r := range env.Relays {
+		vAssert(r.Closed == 1, "C15.every_probe_socket_is_closed_exactly_once")
+	}
+	vAssert(vLocksHeld() == 0, "C18.probe_leaves_no_lock_held")
 	vReach("end")
 }
